@@ -159,6 +159,18 @@ PROPS["C02"] = {
     "assumptions": [TIME_RANGE, "SQLite passes every column to xUpdate on INSERT; UPDATE/DELETE reach the table only for rows visible to the connection"],
 }
 
+PROPS["C01"] = {
+    "harnesses": [
+        {"pkg": ".", "dir": "s3db", "entry": "VerifH_C02_history",
+         "quick": {"params": "stmts=3,writers=3,merger=1,quiesce=1", "workers": 16, "timeout": 1800},
+         "thorough": {"params": "stmts=4,writers=3,merger=1,quiesce=1", "workers": 16, "timeout": 14000}},
+    ],
+    "bounds": {"quick": "one key, 3 symbolic statements over 3 writers that started from the same table; one optional intermediate point where either everybody commits and refreshes or a third party merges the current versions into an intermediate version; every permutation of the version list at every open (symbolic shuffle); then a merging open and a quiescent re-open",
+               "thorough": "4 statements"},
+    "outside": "more than one key per history (tree-level diff is exercised by C16/C17), more than 4 statements",
+    "assumptions": [TIME_RANGE, "distinct write times on the row (the property's precondition)", "the expected row is the documented outcome (C02's oracle), so equal results for all merge orders and groupings follow from equality with it"],
+}
+
 # Properties not (yet) claimed, each with the reason.  Kept current by hand.
 NOT_APPLICABLE = {
     "C%02d" % i: "check not built yet in this session (breadth-first build order, DESIGN §9); no claim is made" for i in range(1, 21)
